@@ -124,7 +124,7 @@ def step_contracts(run):
                 tag = f"{kind}/{aq}/{hook}"
                 if not run.expect_paths(res, f"C12/{tag}", inst):
                     continue
-                rp = lambda mo, sd, i=dict(inst): replay(mo, sd, i)
+                rp = lambda mo, sd, i=dict(inst): replay(mo, sd, i, scale_one="never")
                 qmax = QMAX[aq]
                 for pi, r in enumerate(res):
                     if r.outcome != "return":
